@@ -7,7 +7,7 @@ REQUIRED = ["DaeVerif.C06.Props." + n for n in (
     "sniff_tcp_chunk_invariant", "normalize_ordinary_name", "relay_identity", "sniff_tcp_sound",
     "sniff_returns_by_deadline", "sniff_timed_refines",
     "http_host_found", "http_host_sound", "sniff_tcp_http_one_read",
-    "quic_sni_sound", "reassembly_keeps_slices", "quic_flight_found",
+    "quic_sni_sound", "reassembly_keeps_slices", "quic_flight_found", "quic_header_walk_roundtrip", "quic_datagram_found_partial",
     "udp_not_withheld_when_complete", "udp_flow_in_order",
 )]
 
@@ -153,8 +153,8 @@ def run(ctx):
             a = [f for f in a.split() if f.startswith("res=")][0][4:]
         elif k == "udp" and len(a.split()) >= 2:
             a = a.split()[-2].split("/")[0] + ("+needmore" if a.split()[-2].endswith("/1") else "")
-        elif k in ("chenc", "fenc", "frames", "uvar", "likely", "norm"):
-            a = a.split(" ", 1)[0].split("=")[0] if k in ("chenc", "fenc") else a.split(" ", 1)[0]
+        elif k in ("chenc", "fenc", "henc", "frames", "uvar", "likely", "norm"):
+            a = a.split(" ", 1)[0].split("=")[0] if k in ("chenc", "fenc", "henc") else a.split(" ", 1)[0]
         a = "ok" if a.startswith("ok") else a
         outcomes.setdefault(k, {})
         outcomes[k][a] = outcomes[k].get(a, 0) + 1
@@ -170,7 +170,7 @@ def run(ctx):
     ctx.cov["timed_distribution"] = {k: v for k, v in tstats["counters"].items() if k.startswith("timed.")}
     ctx.cov["op_kinds"] = kinds
     # generator floors: an input class that stops being generated must not go unnoticed
-    allc = dict(stats["counters"]); allc.update(fstats["counters"]); allc.update(tstats["counters"])
+    allc = dict(fstats["counters"]); allc.update(tstats["counters"]); allc.update(stats["counters"])
     allc["hello.big.*"] = sum(v for k, v in stats["counters"].items() if k.startswith("hello.big."))
     floors = {"hello.big.*": 40, "http.cut_in_two": 150, "quic.compacted_then_reused": 25, "quic.version.v2": 40,
               "quic.version.draft29": 15, "quic.version.grease_version": 15, "quic.corrupt": 30, "quic.coalesced": 30,
